@@ -7,6 +7,8 @@ from vf import gen, sel as S
 
 ID = "C02"
 TITLE = "FPS and PCov-FPS pick a farthest candidate each step and report true distances"
+TECHNIQUE = 'Hypothesis PBT against a brute-force O(n^2) distance oracle with tie-aware validity predicate'
+LEVEL = 'Generated-input exploration: each selection step is judged against dense distance matrices built independently (explicit differences; independently assembled PCovR Gram/covariance), reported distances and tables are compared with the true minima, feature/sample duality is a metamorphic cross-check. No absence claim: strength = the counted distinct non-trivial cases in the evidence.'
 BUDGET = {"quick": 2000, "thorough": 20000}
 RULE = ("Cases: FPS / PCovFPS x {feature, sample}; X kinds lattice (exact ties), clustered, dup, eighths, generic, lowrank, "
         "scaled, 2..12 x 2..10 (thorough: to 60 x 30); y normal/lattice/linear; mixing in {0,.1,.5,.9,.99} or a drawn float in "
